@@ -20,6 +20,9 @@ for name in "$@"; do
     t=$(cargo test --offline $feats 2>&1 | grep "test result" | head -1); echo "existing tests with the change: $t"
     mkdir -p tests && cp $d/demo.rs tests/seed_demo.rs
     mode=native
+    # demos that need a release build or the hook cfg say so in their README / source
+    grep -q -- "--release --test" $d/README.md 2>/dev/null && feats="$feats --release"
+    grep -q "cfg(triomphe_verif)" $d/demo.rs 2>/dev/null && export RUSTFLAGS="--cfg triomphe_verif"
     r=$(cargo test --offline $feats --test seed_demo 2>&1 | grep -E "test result|error(\[|:)|signal|SIG" | head -2 | tr '\n' ' ')
     if echo "$r" | grep -q "test result: ok"; then
       mode=miri
@@ -33,11 +36,12 @@ for name in "$@"; do
     echo "demo with the change ($mode): $r"
     git checkout -q -- src
     if [ $mode = native ]; then
-      r2=$(cargo test --offline $feats --test seed_demo 2>&1 | grep -E "test result|error" | head -1)
+      r2=$(cargo test --offline $feats --test seed_demo 2>&1 | grep -E "test result|error(\[|:)" | head -1)
     else
       r2=$(MIRIFLAGS="-Zmiri-permissive-provenance -Zmiri-seed=$s" cargo +nightly miri test --offline $feats --test seed_demo 2>&1 | grep -E "test result|Undefined Behavior|error: " | head -1)
     fi
     echo "demo without the change ($mode): $r2"
+    unset RUSTFLAGS
   } > $out 2>&1
   echo "== $name"; cat $out | tail -4 | cut -c1-300
 done
